@@ -76,22 +76,27 @@ type Runner struct {
 	Hooks Hooks
 	Stats map[string]int
 	ended bool
+	txSeq int64
+	qiFeeShapes map[string]bool
 }
 
 var transferValues = []*big.Int{big.NewInt(1), big.NewInt(1e9), new(big.Int).Mul(big.NewInt(3), big.NewInt(params.Ether)), new(big.Int).Mul(big.NewInt(50), big.NewInt(params.Ether))}
 
 func (r *Runner) inc(k string) { r.Stats[k]++ }
 
+// gasPrice returns a price no two transactions of a run share: the worker breaks price ties by
+// map iteration order, which the simulator cannot steer, so the harness never creates a tie.
 func (r *Runner) gasPrice(mult int64) *big.Int {
 	bf := r.N.Zone().CurrentHeader().BaseFee()
 	if bf == nil || bf.Sign() == 0 {
 		bf = big.NewInt(1)
 	}
-	return new(big.Int).Mul(bf, big.NewInt(mult))
+	r.txSeq++
+	return new(big.Int).Add(new(big.Int).Mul(bf, big.NewInt(mult)), big.NewInt(r.txSeq))
 }
 
 func (r *Runner) addTx(tx *types.Transaction, flavour string) {
-	err := r.N.Zone().Slice().TxPool().AddLocal(tx)
+	err := r.N.Zone().Slice().TxPool().AddRemote(tx) // remote: local txs enter the workshare broadcast set in map order, which would make block hashes irreproducible
 	synctest.Wait()
 	r.W.Tr.Event("tx %s hash=%x err=%v", flavour, tx.Hash().Bytes()[:6], err)
 	if err == nil {
@@ -289,6 +294,16 @@ func (r *Runner) qiSpend(op Op) {
 	if len(outs) == 0 {
 		return
 	}
+	// Qi transactions are ordered by fee per gas with ties broken by map order: never submit two of the same (fee, shape)
+	shape := fmt.Sprintf("%v/%d/%d", new(big.Int).Sub(total, outAmt), len(ins), len(outs))
+	if r.qiFeeShapes == nil {
+		r.qiFeeShapes = map[string]bool{}
+	}
+	if r.qiFeeShapes[shape] {
+		r.inc("qi_skipped_fee_tie")
+		return
+	}
+	r.qiFeeShapes[shape] = true
 	var tx *types.Transaction
 	var err error
 	if fl == "wrong-key" {
